@@ -313,7 +313,7 @@ class C02(Prop):
         "firings whose sides contain constructs without a reference meaning here (Delta, MarkovProduct, distributions, real reductions without closed form) are undecided and counted",
         "carriers: non-negative real points where max/min meets mul; moment_matching firings on genuine mixtures are approximate by design and not compared",
     )
-    cases = {"quick": 1600, "thorough": 60000}
+    cases = {"quick": 4800, "thorough": 80000}
 
     def strategy(self, tier):
         return st.integers(0, 2**40).map(robust_gen(gen_case))
@@ -420,7 +420,8 @@ class C02(Prop):
             lhs = None
             la = None
             try:
-                lhs = I.reflect.interpret(cls, *args)
+                with I.reflect:  # the renaming of bound names inside the constructor must not evaluate anything
+                    lhs = I.reflect.interpret(cls, *args)
             except Exception as e:
                 # a request the constructor rejects (e.g. a Contraction over a non-distributive pair that
                 # normalize rewrites before construction): take its meaning from the arguments
